@@ -644,7 +644,7 @@ fn run_program(fl: Flavour, cap: usize, steps: usize, rng: &mut Rng, tiny: bool)
     }
     let ntx = w.txs.len();
     let nrx = w.rxs.len();
-    let action = rng.weighted(&[10, 10, 8, 8, 6, 6, 5, 3, 3, 2, 2, 3, 4, 3]);
+    let action = rng.weighted(&[10, 10, 8, 8, 6, 6, 5, 3, 3, 2, 2, 3, 4, 3, 2]);
     match action {
       // spawn async send forms
       0 => {
@@ -815,7 +815,7 @@ fn run_program(fl: Flavour, cap: usize, steps: usize, rng: &mut Rng, tiny: bool)
       }
       // clone a receiver
       8 => {
-        if nrx < 3 {
+        if nrx < 5 {
           let i = rng.below(nrx as u64) as usize;
           if w.rxs[i].busy || w.rxs[i].closed {
             continue;
@@ -839,7 +839,7 @@ fn run_program(fl: Flavour, cap: usize, steps: usize, rng: &mut Rng, tiny: bool)
       // drop a sender handle (never the last one before the final third)
       9 => {
         let alive: Vec<usize> = (0..ntx).filter(|&i| w.txs[i].a.is_some() || w.txs[i].s.is_some()).collect();
-        if alive.len() > 1 || step * 3 > steps * 2 {
+        if alive.len() > 1 || step * 3 > steps * 2 || rng.chance(1, 8) {
           if let Some(&i) = alive.get(rng.below(alive.len().max(1) as u64) as usize) {
             drop_tx(&mut w, i);
           }
@@ -877,6 +877,95 @@ fn run_program(fl: Flavour, cap: usize, steps: usize, rng: &mut Rng, tiny: bool)
       }
       // mid-program quiescence check
       12 => w.quiescence_check("mid-program"),
+      // Template "waiters, then values, then the other side leaves, then some woken waiters give up": every free
+      // receiver handle gets a pending receive, a few values are placed with try_send, every sender handle is
+      // dropped (the close wake reaches everybody) and a random subset of the woken futures is cancelled unpolled;
+      // nothing is polled in between. What is left must drain the values before it sees Disconnected.
+      14 => {
+        if fl.oneshot() || fl.broadcast() || step * 2 < steps {
+          continue;
+        }
+        for i in 0..nrx {
+          if w.panicked.is_some() {
+            break;
+          }
+          if w.rxs[i].busy || w.rxs[i].closed || (w.rxs[i].a.is_none() && w.rxs[i].s.is_none()) {
+            continue;
+          }
+          if w.rxs[i].a.is_none() && !w.rx_to_async(i) {
+            continue;
+          }
+          let kind = if fl.has_batch() { rng.weighted(&[5, 2, 2, 3]) as u8 } else { 0 };
+          let max = rng.range(1, 4) as usize;
+          w.spawn_recv(i, kind, max);
+        }
+        w.note("template: receivers pending; now values, then every sender leaves".into());
+        let nvals = rng.range(1, 3) as usize;
+        'vals: for _ in 0..nvals {
+          for i in 0..ntx {
+            if w.panicked.is_some() {
+              break 'vals;
+            }
+            if w.txs[i].busy || w.txs[i].closed || (w.txs[i].a.is_none() && w.txs[i].s.is_none()) {
+              continue;
+            }
+            let (mut vs, ids) = w.payloads(i, 1);
+            let v = vs.pop().unwrap();
+            let is_async = w.txs[i].a.is_some();
+            let mut ev = Ev::new(0, w.txs[i].id, Side::Tx, Form::TrySend, is_async);
+            ev.vals = ids;
+            let idx = w.log.begin(ev);
+            let t = &mut w.txs[i];
+            let r = catch_unwind(AssertUnwindSafe(|| if let Some(a) = t.a.as_mut() { a.try_send(v) } else { t.s.as_mut().unwrap().try_send(v) }));
+            let mut pn = None;
+            w.log.end(idx, |e| match r {
+              Ok(Ok(())) => {
+                e.out = Out::Ok;
+                e.n_ok = 1;
+              }
+              Ok(Err(err)) => {
+                let (o, v) = match err {
+                  TrySendError::Full(v) => (Out::Full, v),
+                  TrySendError::Closed(v) => (Out::Closed, v),
+                  TrySendError::Sent(v) => (Out::Sent, v),
+                };
+                e.out = o;
+                e.back = vec![v.wid()];
+              }
+              Err(p) => {
+                let n = format!("{} @ {}", vh_core::panic_message(&*p), vh_core::last_panic_location());
+                e.out = Out::Panicked;
+                e.note = Some(n.clone());
+                pn = Some(n);
+              }
+            });
+            if pn.is_some() {
+              w.panicked = pn;
+            }
+            break;
+          }
+        }
+        if w.panicked.is_some() {
+          continue;
+        }
+        // pending sends of this program go first: their handles are busy
+        let pend_tx: Vec<usize> = w.pending().into_iter().filter(|&t| w.tasks[t].form.is_send()).collect();
+        for ti in pend_tx {
+          w.cancel_task(ti);
+        }
+        for i in 0..w.txs.len() {
+          if w.panicked.is_none() {
+            drop_tx(&mut w, i);
+          }
+        }
+        let woken: Vec<usize> = w.pending().into_iter().filter(|&t| w.tasks[t].form != Form::StreamNext && w.tasks[t].flag.count() > w.tasks[t].seen).collect();
+        for ti in woken {
+          if rng.chance(1, 2) && w.panicked.is_none() {
+            w.cancel_task(ti);
+          }
+        }
+        w.run_woken();
+      }
       // A pending `Stream` poll left a registration inside the *receiver*. Abandon the polling task and,
       // in the same step, end that handle's async life (convert it to sync, or drop it): the handle must
       // take its registration with it, or the next wake is spent on a dead entry.
@@ -1076,7 +1165,7 @@ fn main() {
   while args.time_left() && exec < max_exec {
     let fl = flavours[(exec as usize) % flavours.len()];
     exec += 1;
-    let cap = *rng.pick(&[1usize, 1, 2, 3, 4, 8]);
+    let cap = *rng.pick(&[1usize, 1, 2, 3, 3, 4, 5, 6, 8]);
     let steps = if tiny { rng.range(4, 14) } else { rng.range(6, 70) } as usize;
     let case_seed = rng.next();
     let mut crng = Rng::new(case_seed);
